@@ -54,7 +54,7 @@ def compare(base, other, rank=0):
     # `tpc list` prints the internal Status of every stored element: for identically vanishing components (no parts) it is
     # only advanced on the ranks of the colour that "computed" them; they are evaluable (to 0) everywhere, which is what the
     # property asks for and what `tpc evalall` / `tpc get` observe -- the status column is not compared across ranks
-    skip = ("o chitab", "o tpclist") if rank != 0 else ("o tpclist",)
+    skip = ("o chitab", "o chilong", "o tpclist") if rank != 0 else ("o tpclist",)
     A = [l for l in base.splitlines() if l.startswith(("o ", "c ")) and not l.startswith(skip or ("\0",))]
     B = [l for l in other.splitlines() if l.startswith(("o ", "c ")) and not l.startswith(skip or ("\0",))]
     if len(A) != len(B):
